@@ -140,14 +140,13 @@ def run(ctx):
         return gen_dup_history(rng) if rng.random() < 0.4 else orig(rng, length, **kw)
     C.gen_history = mixed
     try:
-        runs = C.explore(ctx, ctx.n(400, 6000), 10, c03.STYLES, p_invalid=0.1, observe=observe)
+        for r in C.explore(ctx, ctx.n(400, 6000), 10, c03.STYLES, p_invalid=0.1, observe=observe):
+            ctx.case((r.desc, str(C.jsonable_hist(r.hist))), nontrivial=C.nontrivial_history(r),
+                     sample=dict(start=r.desc, ops=[s["op"][0] + ":" + s["real"] for s in r.steps]), tags=C.history_tags(r))
+            C.correspondence(ctx, r)
+            judge(ctx, r)
     finally:
         C.gen_history = orig
-    for r in runs:
-        ctx.case((r.desc, str(C.jsonable_hist(r.hist))), nontrivial=C.nontrivial_history(r),
-                 sample=dict(start=r.desc, ops=[s["op"][0] + ":" + s["real"] for s in r.steps]), tags=C.history_tags(r))
-        C.correspondence(ctx, r)
-        judge(ctx, r)
 
 
 def replay(path):
